@@ -5,8 +5,9 @@ CFG = {'assumptions': ['f64 inputs cross the boundary as bit patterns and are de
                  'compared bit-exactly when every intermediate value of the expression is representable)',
                  'integer scalar types: no wrap-around (entries of the generated i32/i64 matrices are at most 9)',
                  'commutation clause: operands are valid geometries (valid by construction in the generator)'],
+ 'translator': True,
  'count': {'quick': 48000, 'thorough': 1600000},
- 'lean_files': ['GeoModel/Affine.lean', 'GeoModel/Ops/C13.lean', 'GeoModel/Traverse.lean', 'GeoModel/Orient.lean'],
+ 'lean_files': ['GeoModel/Affine.lean', 'GeoModel/Ops/C13.lean', 'GeoModel/Traverse.lean', 'GeoModel/Orient.lean', 'GeoModel/Gen/AffineGen.lean'],
  'rule': 'five streams. alg: chains of 1-8 f64 matrices (integer, dyadic, exact-similarity, singular, det=+-2^k, '
          'wild floats) x compose_many / fold of compose / apply / inverse / round trips; ctor: scale, translate, '
          'rotate, skew constructors and their cumulative forms on a base matrix; trait: every Translate / Scale / '
